@@ -4,6 +4,7 @@ package main
 
 import (
 	"fmt"
+	"reflect"
 	"strings"
 
 	"github.com/semihalev/twig"
@@ -12,6 +13,26 @@ import (
 
 type world struct {
 	e *twig.Engine
+	// fresh: a struct type nobody in this process has looked an attribute up on yet (S7b)
+	fresh func(x interface{}) interface{}
+}
+
+var freshCounter int
+
+// freshStruct builds a new struct type {P, Q string; X<n> int} per call of the setup
+func freshStruct() func(x interface{}) interface{} {
+	freshCounter++
+	st := reflect.StructOf([]reflect.StructField{
+		{Name: "P", Type: reflect.TypeOf("")},
+		{Name: "Q", Type: reflect.TypeOf("")},
+		{Name: fmt.Sprintf("X%d", freshCounter), Type: reflect.TypeOf(0)},
+	})
+	return func(x interface{}) interface{} {
+		v := reflect.New(st).Elem()
+		v.Field(0).SetString("p" + fmt.Sprint(x))
+		v.Field(1).SetString("q")
+		return v.Interface()
+	}
 }
 
 type call func(w *world) string
@@ -48,9 +69,32 @@ var arrayTemplates = map[string]string{
 	"b/base":     "BB<{% block c %}{% endblock %}>",
 	"b/sub/m":    "{% macro f(p) %}bm{{ p }}{% endmacro %}",
 	"old":        "OLD{{ x }}",
+	"wide":       "W{{ x }}-aaaaaaaaaaaaaaaa-{{ x }}-bbbbbbbbbbbbbbbbbbbbbbbb-{% for i in xs %}<{{ i }}>{% endfor %}",
+	"wide2":      "V{{ x }}-cccccccccccccccccccccccccccccccc-{{ x }}{% if x %}-dddddddd{% endif %}",
+	"fargs":      "{{ xs|join(sep) }}|{{ missing|default(fb) }}|{% for v in xs|slice(0, n) %}{{ v }}{% endfor %}|{{ (x ~ sep)|replace('-', by) }}",
+	"attr2":      "{{ o.P }}{{ o.Q }}{{ o.M }}",
 }
 
 type TS struct{ A, B string }
+
+// TS2: looked up for the first time inside the concurrent phase (S7b)
+type TS2 struct{ P, Q string }
+
+func (TS2) M() string { return "m" }
+
+func rcs(name string, x interface{}) call {
+	return func(w *world) string {
+		var o interface{} = TS2{"p" + fmt.Sprint(x), "q"}
+		if w.fresh != nil {
+			o = w.fresh(x)
+		}
+		out, err := w.e.Render(name, map[string]interface{}{"o": o})
+		if err != nil {
+			return "ERR " + firstLine(err.Error())
+		}
+		return out
+	}
+}
 
 func ctxFor(x interface{}) map[string]interface{} {
 	return map[string]interface{}{"x": x, "xs": []interface{}{x, x}, "o": TS{"a" + fmt.Sprint(x), "b"}}
@@ -92,6 +136,42 @@ func rto(name string, x interface{}) call {
 			return "ERR " + firstLine(err.Error())
 		}
 		return sb.String()
+	}
+}
+
+// yieldWriter is a plain io.Writer (no WriteString) that lets other threads run in the middle of a
+// Write, before it has copied the bytes it was handed — what a slow or blocking writer does.
+type yieldWriter struct{ buf []byte }
+
+func (w *yieldWriter) Write(p []byte) (int, error) {
+	vsync.Yield()
+	w.buf = append(w.buf, p...)
+	vsync.Yield()
+	return len(p), nil
+}
+
+func rtoYield(name string, x interface{}) call {
+	return func(w *world) string {
+		yw := &yieldWriter{}
+		if err := w.e.RenderTo(yw, name, ctxFor(x)); err != nil {
+			return "ERR " + firstLine(err.Error())
+		}
+		return string(yw.buf)
+	}
+}
+
+// rcx renders with extra context entries (arguments of filters differ per thread)
+func rcx(name string, x interface{}, extra map[string]interface{}) call {
+	return func(w *world) string {
+		c := ctxFor(x)
+		for k, v := range extra {
+			c[k] = v
+		}
+		out, err := w.e.Render(name, c)
+		if err != nil {
+			return "ERR " + firstLine(err.Error())
+		}
+		return out
 	}
 }
 
@@ -214,6 +294,18 @@ func scenarios() []scenario {
 			threads: [][]call{{rc("use", 1)}, {rc("use", 2)}}, quickK: 2, thoroughK: 3},
 		{name: "S4e one cached template, for + set", setup: warmAll("set"), modes: []string{"cache-on"},
 			threads: [][]call{{rc("set", 1)}, {rc("set", 2)}}},
+		{name: "S4f RenderTo into slow plain writers (no WriteString) of two templates", setup: warmAll("wide", "wide2"), modes: []string{"cache-on"},
+			threads: [][]call{{rtoYield("wide", 1)}, {rtoYield("wide2", 2)}}, quickK: 2, thoroughK: 3},
+		{name: "S4g one cached template, filter arguments that differ per render", setup: warmAll("fargs"), modes: []string{"cache-on"},
+			threads: [][]call{
+				{rcx("fargs", 1, map[string]interface{}{"sep": "-", "fb": "one", "n": 1, "by": "+"})},
+				{rcx("fargs", 2, map[string]interface{}{"sep": "/", "fb": "two", "n": 2, "by": "*"})}}, quickK: 2, thoroughK: 3},
+		{name: "S7b first struct attribute lookups of a type from two threads (cold attribute cache)", setup: func(mode string) *world {
+			w := newEngine(mode, []string{"attr2"}, false)
+			w.fresh = freshStruct()
+			return w
+		}, modes: []string{"cache-on"},
+			threads: [][]call{{rcs("attr2", 1)}, {rcs("attr2", 2)}}},
 		{name: "S5 Render(n) || RegisterString(n, new)", setup: func(mode string) *world {
 			w := newEngine(mode, nil, false)
 			w.e.RegisterString("n", "OLD{{ x }}")
